@@ -1,1 +1,91 @@
-/- property theorems of C02 (only theorems + non-vacuity examples live here) -/
+import Got.Lemmas.MSQueueSolo
+/-
+C02 — loom.Queue is lock-free: an operation running alone always finishes.
+
+Model: `Got.Model.MSQueue` (one `tau t` = one shared-memory access of loom/queue.go = one step of the
+controlled scheduler on the real code).  `solo t k s` = `k` successive steps of thread `t` with every
+other thread frozen wherever it happens to be; `busy s t` = thread `t` is inside a Push or Pop.
+-/
+open Got.Model.MSQueue Got.Spec.Lin
+
+/-- **C02.** From every reachable state (any number of threads, any client programs, any
+    interleaving; the other threads are frozen at arbitrary points inside their operations), a busy
+    thread that keeps running alone returns within `K = 13` of its own steps. -/
+theorem C02_solo_bound : ∀ (acts : List Act) (t : Nat), busy (run init acts) t →
+    ∃ k, k ≤ K ∧ ¬ busy (solo t k (run init acts)) t :=
+  fun acts t _ => solo_bound (inv_reachable acts) t
+
+/-- the measure behind the bound: it is at most `K` and strictly decreases with every solo step of a
+    busy thread (in every reachable state). -/
+theorem C02_measure : ∀ (acts : List Act) (t : Nat),
+    mu (run init acts) t ≤ K ∧
+    (busy (run init acts) t → mu (tau (run init acts) t) t < mu (run init acts) t) :=
+  fun acts t => ⟨mu_le_K _ t, fun hb => mu_dec (inv_reachable acts) hb⟩
+
+/-- a step of a thread never makes *another* thread's operation return or start: freezing is
+    faithful (the solo thread's steps change only its own pc). -/
+theorem C02_solo_frame : ∀ (s : State) (t t' : Nat), t' ≠ t → (tau s t).pc t' = s.pc t' := by
+  intro s t t' h
+  have hu : ∀ p, (setPc s t p).pc t' = s.pc t' := fun p => upd_other _ _ _ _ h
+  have hc : ∀ a b p, (casTail s t a b p).pc t' = s.pc t' := by
+    intro a b p; rw [casTail_pc]; exact upd_other _ _ _ _ h
+  unfold tau
+  split
+  · rfl
+  · rfl
+  · exact hu _
+  · exact hu _
+  · split
+    · split <;> exact hu _
+    · exact hu _
+  · split
+    · exact upd_other _ _ _ _ h
+    · exact hu _
+  · exact hc _ _ _
+  · exact hc _ _ _
+  · exact hu _
+  · exact hu _
+  · split
+    · exact upd_other _ _ _ _ h
+    · exact hu _
+  · split
+    · split
+      · split
+        · exact upd_other _ _ _ _ h
+        · exact hu _
+      · split <;> exact hu _
+    · exact hu _
+  · exact hc _ _ _
+  · split
+    · exact upd_other _ _ _ _ h
+    · exact hu _
+
+/-! ### non-vacuity: reachable states with a linked-but-unswung node (lagging tail) -/
+
+/-- thread 0 has linked its node and is frozen before swinging the tail; thread 1 then invokes Push. -/
+def lagPush : List Act :=
+  [.invPush 0 1, .tau 0, .tau 0, .tau 0, .tau 0, .invPush 1 2]
+
+/-- the solo Push goes through its helping branch: exactly 9 steps (4 helping + 5). -/
+example : busy (run init lagPush) 1 ∧ busy (solo 1 8 (run init lagPush)) 1 ∧
+    ¬ busy (solo 1 9 (run init lagPush)) 1 ∧ mu (run init lagPush) 1 = 9 := by decide
+
+/-- same state, thread 2 invokes Pop: head = tail and the tail lags, 10 steps (5 helping + 5). -/
+def lagPop : List Act :=
+  [.invPush 0 1, .tau 0, .tau 0, .tau 0, .tau 0, .invPop 2]
+
+example : busy (run init lagPop) 2 ∧ busy (solo 2 9 (run init lagPop)) 2 ∧
+    ¬ busy (solo 2 10 (run init lagPop)) 2 ∧ mu (run init lagPop) 2 = 10 := by decide
+
+/-- the bound `K = 13` is attained: thread 2 loaded the head (n0) and is frozen; thread 0 pushes 1
+    completely, thread 1 pops it (head moves to n1), thread 3 links a node behind n1 and is frozen
+    before swinging the tail.  Thread 2, alone: 3 steps to fail the re-check of its stale head,
+    5 steps of a helping iteration, 5 steps of a successful iteration. -/
+def worstPop : List Act :=
+  [.invPop 2, .tau 2,
+   .invPush 0 1, .tau 0, .tau 0, .tau 0, .tau 0, .tau 0,
+   .invPop 1, .tau 1, .tau 1, .tau 1, .tau 1, .tau 1,
+   .invPush 3 3, .tau 3, .tau 3, .tau 3, .tau 3]
+
+example : busy (run init worstPop) 2 ∧ busy (solo 2 12 (run init worstPop)) 2 ∧
+    ¬ busy (solo 2 13 (run init worstPop)) 2 ∧ mu (run init worstPop) 2 = 13 := by decide
